@@ -471,22 +471,28 @@ Section Tokenize.
                  (match codefence_start line with Some _ => true | None => false end) (blockcode_start line) (is_blank line)
     end.
 
+  Definition same_marker_type (leader other : str) : bool :=
+    if slen leader =? 1 then str_eqb leader other
+    else all_decimal (removelast leader) && all_decimal (removelast other) && (last_char leader =? last_char other).
+
   (* the main loop of ListItem.read: (line buffer, lines consumed, next marker) *)
-  Fixpoint item_loop (after : list str) (prepend : Z) (buf_rev : list str) (taken : nat) (newlines : nat)
+  Fixpoint item_loop (leader : str) (after : list str) (prepend : Z) (buf_rev : list str) (taken : nat) (newlines : nat)
     : list str * nat * option (Z * Z * str * str) :=
     let stop_backstep := (rev (skipn newlines buf_rev), (match newlines with O => taken | _ => taken - 1 end)%nat, None) in
     match after with
     | [] => stop_backstep
     | next_line :: r =>
       match parse_continuation next_line prepend with
-      | Some cont => item_loop r prepend (cont :: buf_rev) (S taken) (if str_eqb cont [10] then S newlines else O)
+      | Some cont => item_loop leader r prepend (cont :: buf_rev) (S taken) (if str_eqb cont [10] then S newlines else O)
       | None =>
         if any_interrupt types BK_List after then stop_backstep
         else match parse_marker next_line with
-             | Some mk => (rev buf_rev, taken, Some mk)
+             | Some ((_, _, other, _) as mk) =>
+               (* a marker of another list type ends the list: the blank lines before it are not the item's *)
+               if same_marker_type leader other then (rev buf_rev, taken, Some mk) else stop_backstep
              | None =>
                match newlines with
-               | O => item_loop r prepend (next_line :: buf_rev) (S taken) (if str_eqb next_line [10] then 1%nat else O)
+               | O => item_loop leader r prepend (next_line :: buf_rev) (S taken) (if str_eqb next_line [10] then 1%nat else O)
                | _ => stop_backstep
                end
              end
@@ -495,10 +501,6 @@ Section Tokenize.
 
   Fixpoint count_blank (after : list str) : nat :=
     match after with line :: r => if is_blank line then S (count_blank r) else O | [] => O end.
-
-  Definition same_marker_type (leader other : str) : bool :=
-    if slen leader =? 1 then str_eqb leader other
-    else all_decimal (removelast leader) && all_decimal (removelast other) && (last_char leader =? last_char other).
 
   (* open recursion: `rec` is tokenize_block one nesting level down *)
   Section Level.
@@ -523,12 +525,12 @@ Section Tokenize.
               (PItem ln [] true indentation prepend' leader, S nb,
                match rest with nl :: _ => parse_marker nl | [] => None end, st)
             | O =>
-              let '(buf, taken, next_marker) := item_loop r prepend' [] 1%nat O in
+              let '(buf, taken, next_marker) := item_loop leader r prepend' [] 1%nat O in
               let '(entries, loose, st') := rec buf (ln + 1) st in
               (PItem ln entries loose indentation prepend' leader, taken, next_marker, st')
             end
           else
-            let '(buf, taken, next_marker) := item_loop r prepend [content] 1%nat O in
+            let '(buf, taken, next_marker) := item_loop leader r prepend [content] 1%nat O in
             let '(entries, loose, st') := rec buf ln st in
             (PItem ln entries loose indentation prepend leader, taken, next_marker, st')
         end
